@@ -189,7 +189,10 @@ class Runner:
 
             def tcp_policy(sock: Any, addr: Any, prev: Any = sim.net.connect_policy) -> tuple[Any, ...]:
                 if addr[0] in tcp:
-                    return tuple(tcp[addr[0]])
+                    t = tuple(tcp[addr[0]])
+                    if t[0] == "ok-then-rst":
+                        return (t[0], t[1] if len(t) > 1 else 0.001, self.dev)
+                    return t
                 return prev(sock, addr)
             sim.net.connect_policy = tcp_policy
         sf = spec.get("sockopt_fail")
